@@ -1,5 +1,6 @@
 import TddaVerif.Drv.Util
 import TddaVerif.Model.Gentest
+import TddaVerif.Model.GentestExcl
 open Lean TddaVerif.Drv TddaVerif.Gentest
 
 namespace TddaVerif.Drv.Gt
@@ -23,6 +24,19 @@ def handle (op : String) (j : Json) : Option (R Json) :=
       pure (Json.bool (numDateLike (← asNat (← fld j "n1")) (← asNat (← fld j "n2")) (← asNat (← fld j "n3")) (fun _ _ _ => true)))
   | "gt.possible_date" => some do
       pure (Json.bool (possibleDate (← asNat (← fld j "y")) (← asNat (← fld j "m")) (← asNat (← fld j "d"))))
+  | "gt.exclusions" => some do
+      let e ← fld j "env"
+      let env : Env := {
+        host := ← asChars (← fld e "host"), ip := ← asOpt asChars (← fld e "ip"), cwd := ← asChars (← fld e "cwd"),
+        homedir := ← asChars (← fld e "homedir"), user := ← asChars (← fld e "user"),
+        tmpdir := ← asOpt asChars (← fld e "tmpdir"), userInHome := ← asBool (← fld e "user_in_home"),
+        cwdInHome := ← asBool (← fld e "cwd_in_home") }
+      let lines ← asList (fun l => do
+          pure ({ text := ← asChars (← fld l "text"), plausibleDate := ← asBool (← fld l "plausible_date"),
+                  dtLike := ← asBool (← fld l "dt_like"), dates := ← asList asChars (← fld l "dates"),
+                  dts := ← asList asChars (← fld l "dts") } : LineInfo)) (← fld j "lines")
+      let x := exclusions env (← asNat (← fld j "iterations")) lines
+      pure (Json.mkObj [("substrings", ofList ofChars x.substrings), ("dates_to_rex", ofList ofChars x.datesToRex)])
   | _ => none
 
 end TddaVerif.Drv.Gt
